@@ -43,6 +43,8 @@ XDATA = {
     # already diagonal but not sorted (uncoupled sites), and diagonal + degenerate + unsorted
     "D": numpy.diag([1.0, 0.2, 0.6]),
     "E": numpy.diag([0.7, 0.2, 0.7]),
+    # complex Hermitian (not real symmetric): the transformation is unitary, S^-1 = S^+ != S^T
+    "Z": numpy.array([[0.0, 1.0, 0.5j], [1.0, 1.0, 0.3 + 0.2j], [-0.5j, 0.3 - 0.2j, 2.0]]),
 }
 
 
@@ -86,6 +88,21 @@ def _vals(kind, which):
     raise isolation.HarnessError(kind)
 
 
+REALABLE = ("op", "rho", "sup", "sup5", "relt5", "esup", "dme", "rdme")
+
+
+def _vals_cfg(cfg, kind, which):
+    """_vals, or (sections with "realdata") the real parts stored in REAL-dtype arrays: what a
+    user holds who never thought about complex bases; representations in a complex Hermitian
+    eigenbasis are complex all the same."""
+    v = _vals(kind, which)
+    if cfg.get("realdata") and kind in REALABLE:
+        v = {a: numpy.ascontiguousarray(numpy.real(x)).astype(float) for a, x in v.items()}
+        if kind == "rho":
+            v = {a: 0.5 * (x + x.T) for a, x in v.items()}
+    return v
+
+
 PARTKIND = {"op": "op", "rho": "op", "ham": "op", "dmom": "dmom", "sup": "sup",
             "lindten": "sup", "lindop": "ops3", "dme": "dme", "ctx": "op",
             "esup": "sup_t", "sup5": "sup_t", "relt5": "sup_t",
@@ -125,6 +142,10 @@ class World:
 
     # -- helpers -----------------------------------------------------
     def v(self, key, what, det=None):
+        # worlds with a complex Hermitian context operator get their own keys
+        if any(numpy.iscomplexobj(XDATA[n]) for n in self.cfg["ctx"]):
+            key += "/complex-hermitian-context" + ("/real-storage" if self.cfg.get("realdata")
+                                                   else "")
         if key not in [x[0] for x in self.viol]:
             self.viol.append((key, what, det))
 
@@ -182,7 +203,7 @@ class World:
     # -- ops ---------------------------------------------------------------
     def create(self, kind):
         qr = self.qr
-        vals = _vals(VALKIND.get(kind, kind), 0) if kind != "lindop" else None
+        vals = _vals_cfg(self.cfg, VALKIND.get(kind, kind), 0) if kind != "lindop" else None
         if kind == "op":
             from quantarhei.qm import Operator
             o = Operator(data=vals["_data"].copy())
@@ -227,9 +248,10 @@ class World:
         elif kind in ("dme", "rdme"):
             from quantarhei.qm import DensityMatrixEvolution, ReducedDensityMatrixEvolution
             ta = qr.TimeAxis(0.0, NT, 1.0)
-            r0 = qr.ReducedDensityMatrix(data=_vals("rho", 0)["_data"].copy())
+            r0 = qr.ReducedDensityMatrix(data=_vals_cfg(self.cfg, "rho", 0)["_data"].copy())
             o = (DensityMatrixEvolution if kind == "dme" else ReducedDensityMatrixEvolution)(ta, r0)
-            full = _vals("dme", 0)["_data"]
+            full = _vals_cfg(self.cfg, "dme", 0)["_data"]
+            vals = {"_data": full}
             o.data[1, :, :] = full[1]
             o.data[2, :, :] = full[2]
         else:
@@ -285,7 +307,7 @@ class World:
 
     def write(self, label):
         rec = self.objs[label]
-        vals = _vals(VALKIND.get(rec["kind"], rec["kind"]), 1)
+        vals = _vals_cfg(self.cfg, VALKIND.get(rec["kind"], rec["kind"]), 1)
         for a, x in vals.items():
             setattr(rec["obj"], a[1:], x.copy())
             rec["H"][a] = self.to_root(rec["kind"], x)
@@ -405,9 +427,14 @@ class World:
         snap = self._snap()
         cm = self.qr.eigenbasis_of(rec["obj"])
         cm.__enter__()
-        S = numpy.array(self.mgr.basis_transformations[-1], dtype=float, copy=True)
+        S = numpy.array(self.mgr.basis_transformations[-1], dtype=complex, copy=True)
+        if numpy.max(numpy.abs(S.imag)) == 0.0:
+            S = S.real.copy()
         Xcur = self.expected("X" + name, "_data")
-        bad = BM.check_diagonalizer(Xcur, S)
+        # once a complex Hermitian operator is in play, stored representations are complex and a
+        # unitary (phase-carrying) eigenbasis is as good as a real one
+        cplx = any(numpy.iscomplexobj(XDATA[n]) for n in self.cfg["ctx"])
+        bad = BM.check_diagonalizer(Xcur, S, allow_complex=cplx)
         if bad:
             self.v("enter/transformation-does-not-diagonalise/" + "+".join(bad),
                    "basis transformation of eigenbasis_of(X%s) at depth %d: %s"
@@ -642,6 +669,10 @@ def sections(tier):
             secs.append(("at-" + k, {"ctx": ["A", "B"], "kinds": [], "nobj": 0, "nest": 2,
                                      "nexc": 1, "protect": False, "napply": 0, "nat": 1,
                                      "precreate": [k]}, 4))
+        secs.append(("complex-context-operator", {"ctx": ["Z", "A"],
+                                                  "kinds": ["dmom", "dme", "op", "sup"],
+                                                  "nobj": 1, "nest": 2, "nexc": 1,
+                                                  "protect": False, "realdata": True}, 4))
         # the largest section comes last: it may use the time the others did not need
         secs.append(("apply-sup", {"ctx": ["A", "B"], "kinds": [], "nobj": 0, "nest": 2, "nexc": 1,
                                    "protect": False, "precreate": ["op", "sup"]}, 5))
@@ -672,6 +703,19 @@ def sections(tier):
             secs.append(("at-" + k, {"ctx": ["A", "B", "C"], "kinds": [], "nobj": 0, "nest": 3,
                                      "nexc": 1, "protect": True, "napply": 0, "nat": 2,
                                      "precreate": [k]}, 6))
+        for k in ("op", "rho", "ham", "dmom", "sup", "dme", "esup", "relt5", "lindop", "lindten"):
+            secs.append(("complex-context-" + k, {"ctx": ["Z", "A"], "kinds": [k], "nobj": 2,
+                                                  "nest": 2, "nexc": 1, "protect": True}, 5))
+            if k in REALABLE:
+                secs.append(("complex-context-real-" + k,
+                             {"ctx": ["Z", "A"], "kinds": [k], "nobj": 2, "nest": 2, "nexc": 1,
+                              "protect": True, "realdata": True}, 5))
+        # the action of a tensor on a state inside a complex eigenbasis
+        for nm, pre in (("sup", ["op", "sup"]), ("lindop", ["rho", "lindop"]),
+                        ("lindten", ["op", "lindten"]), ("esup", ["rho", "esup"])):
+            secs.append(("complex-apply-" + nm, {"ctx": ["Z", "A"], "kinds": [], "nobj": 0,
+                                                 "nest": 2, "nexc": 1, "protect": False,
+                                                 "precreate": pre}, 5))
     return secs
 
 
@@ -690,7 +734,8 @@ def run(run):
                 "restoration clause checked; non-trivial = history that enters a context and "
                 "touches an object")
     run.assumptions = ["context operators are real symmetric 3x3 (one with a degenerate "
-                       "spectrum); the implementation's transformation matrix is validated "
+                       "spectrum), plus one complex Hermitian operator in the complex-context "
+                       "sections; the implementation's transformation matrix is validated "
                        "(orthogonal, diagonalises the model's operator, ascending) and then used "
                        "by the model, which removes eigenvector gauge freedom",
                        "protection only in the bracketed form used by the package",
